@@ -153,6 +153,9 @@ def schema_regexes() -> list[tuple[str, str, str]]:
     return out
 
 
+WORD_EXTREMES = ("7FFF", "8000", "8001", "7F00", "7EFF", "FFFF")
+
+
 class _Policy:
     """Decides every choice point of one walk.  base in {"min","max","rand"}; focus overrides one site."""
 
@@ -285,6 +288,14 @@ def regex_members(regex: str, rng: random.Random | None = None, n_random: int = 
                     add(_emit(tree, _Policy("rand", rng, (site, k), cap)))
         if len(found) > n0 and cap <= 4:
             break
+    # semantic extremes of 16-bit fields: every byte-aligned 4-hex window of the first (all-min) member set to the
+    # words around the sign bit and the sentinels (7FFF, 8000, 8001, 7F00, 7EFF, FFFF), kept if the regex still accepts
+    base_members = list(found)[:1]
+    for bm in base_members:
+        for i in range(0, len(bm) - 3, 2):
+            for wd in WORD_EXTREMES:
+                if bm[i:i + 4] != wd:
+                    add(bm[:i] + wd + bm[i + 4:])
     tries = 0
     want = len(found) + n_random
     while len(found) < want and tries < n_random * 20:
